@@ -518,6 +518,27 @@ class C13FaultsProj(FaultsProj):
         return None
 
 
+class C14FaultsProj(FaultsProj):
+    """of the faults engine, the complete target responses of services with response buffering (limits none, above and
+    below the body sizes) through a real http.Server front: what the client receives and what is logged"""
+    def __init__(self):
+        super().__init__('log')
+        self.buffered = False
+        self.limit = 0
+
+    def step(self, kind, op, a, b):
+        if kind == 'setup':
+            self.buffered = 'bufresp=1' in op
+            m = _re2.search(r'maxresp=(\d+)', op)
+            self.limit = int(m.group(1)) if m else 0
+            return a, b, False
+        if kind == 'fault' and self.buffered and ('mode=early' in op or 'mode=ok' in op):
+            r = super().step(kind, op, a, b)
+            m = _re2.search(r'mode=\w+:\d+:(\d+)', op)
+            return (r[0], r[1], bool(m) and self.limit > 0 and int(m.group(1)) > self.limit) if r else None
+        return None
+
+
 class MwOnlyProj:
     """of the buffer engine, only the middleware runs (bodies through request/response buffering)"""
     def step(self, kind, op, a, b):
@@ -681,8 +702,10 @@ PROPS = {
     ),
     'C14': dict(
         engines=[engine('buffer', lambda: AllProj(lambda k, op, b: ('spill=1' in b) or ('tl' in b) or k != 'buf'), 60, 3000),
-                 control(C14CtlProj, 80, 3000)],
-        rule="engine control: the buffering flags and limits of every service as persisted after every command of random histories incl. "
+                 control(C14CtlProj, 80, 3000), engine('faults', C14FaultsProj, 40, 2000)],
+        rule="engine faults (response-buffered services, limit none / 299 / 50000 bytes, complete target responses of 0..70000 bytes with and "
+             "without `103 Early Hints`, through a real http.Server front and the reverse proxy): status, completeness and body length the "
+             "client receives (a complete 500 when over the limit, never a cut connection) and the log record. engine control: the buffering flags and limits of every service as persisted after every command of random histories incl. "
              "restarts (limits 0, small and large). engine buffer: (1) exhaustive small scope on every run - every buffer-memory 0..5 x max-bytes 0..6 x every composition of every "
              "total 0..6 into write chunks (0..8 x 0..9 x totals 0..9 in the thorough tier) against the real Buffer: per-write result, overflow "
              "flag, bytes held in memory, spill file created, delivered bytes, spill removed on Close (twice); (2) request buffering through a "
